@@ -363,3 +363,90 @@ func mustErr(err error) {
 		panic("zzrepo: " + err.Error())
 	}
 }
+
+// ---- AssocStore: an objects.Store whose keys may contain symbolic bytes ----
+//
+// Keys are compared with bytes.Equal (a symbolic comparison under gosym, which
+// forks where the outcome is not determined), never hashed. Listing is sorted by
+// key, like badger.
+
+type assocEntry struct {
+	k, v []byte
+}
+
+type AssocStore struct {
+	E []assocEntry
+	F *Fault
+}
+
+func NewAssocStore() *AssocStore { return &AssocStore{} }
+
+func (s *AssocStore) find(k []byte) int {
+	for i := range s.E {
+		if len(s.E[i].k) == len(k) && bytes.Equal(s.E[i].k, k) {
+			return i
+		}
+	}
+	return -1
+}
+func (s *AssocStore) Get(k []byte) ([]byte, error) {
+	if i := s.find(k); i >= 0 {
+		return s.E[i].v, nil
+	}
+	return nil, objects.ErrKeyNotFound
+}
+func (s *AssocStore) Set(k, v []byte) error {
+	if err := s.F.before("obj.Set " + keyName(k)); err != nil {
+		return err
+	}
+	kc := append([]byte{}, k...)
+	vc := append([]byte{}, v...)
+	if i := s.find(k); i >= 0 {
+		s.E[i].v = vc
+		return nil
+	}
+	s.E = append(s.E, assocEntry{kc, vc})
+	return nil
+}
+func (s *AssocStore) Delete(k []byte) error {
+	if err := s.F.before("obj.Delete " + keyName(k)); err != nil {
+		return err
+	}
+	if i := s.find(k); i >= 0 {
+		s.E = append(s.E[:i], s.E[i+1:]...)
+	}
+	return nil
+}
+func (s *AssocStore) Exist(k []byte) bool { return s.find(k) >= 0 }
+func (s *AssocStore) sorted(prefix []byte) []assocEntry {
+	var r []assocEntry
+	for _, e := range s.E {
+		if bytes.HasPrefix(e.k, prefix) {
+			r = append(r, e)
+		}
+	}
+	sort.Slice(r, func(i, j int) bool { return bytes.Compare(r[i].k, r[j].k) < 0 })
+	return r
+}
+func (s *AssocStore) Filter(prefix []byte) (map[string][]byte, error) {
+	return nil, fmt.Errorf("AssocStore.Filter: not supported")
+}
+func (s *AssocStore) FilterKey(prefix []byte) ([][]byte, error) {
+	keys := [][]byte{}
+	for _, e := range s.sorted(prefix) {
+		keys = append(keys, e.k)
+	}
+	return keys, nil
+}
+func (s *AssocStore) Clear(prefix []byte) error {
+	var r []assocEntry
+	for _, e := range s.E {
+		if !bytes.HasPrefix(e.k, prefix) {
+			r = append(r, e)
+		}
+	}
+	s.E = r
+	return nil
+}
+func (s *AssocStore) Close() error { return nil }
+func (s *AssocStore) Len() int     { return len(s.E) }
